@@ -1117,7 +1117,16 @@ func (c *c10Gen) enableLine(ri int, r c10RaSnap) string {
 func (c *c10Gen) ownerSetgi(ri int, r c10RaSnap) string {
 	gi := c.validGI(ri)
 	if r.Exists {
-		switch c.g.Intn(3) {
+		switch c.g.Intn(4) {
+		case 3:
+			// the registered info resubmitted unchanged (an idempotent client retry), followed by a changing
+			// update: a no-op update must not alter anything, the seal included
+			gi = c.fromReal(r.GIraw)
+			c.r.Hit("setgi/identical-resubmit")
+			if r.HasPlan {
+				c.r.Hit("setgi/identical-resubmit-after-plan")
+			}
+			c.script = append([]string{fmt.Sprintf("setgi r%d", ri)}, c.script...)
 		case 0:
 			gi = c.fromReal(r.GIraw)
 			gi.Ck = gi.Ck%3 + 1
@@ -1773,6 +1782,18 @@ func c10Directed() [][]string {
 			hs,
 			"send c0",
 			"enable r0 by=owner",
+		},
+		{ // sealed by a plan: the registered info resubmitted unchanged, then the re-routing update
+			"reset nra=2",
+			"create r0 " + gi(1, reg),
+			"plan r0 by=owner alloc=" + alloc + " dur=600",
+			"setgi r0 by=owner " + gi(1, reg),
+			"setgi r0 by=owner " + gi(1, rerouted),
+			"setgi r0 by=owner " + gi(2, reg),
+			"tick dt=600",
+			"seq r0",
+			"link r0",
+			hs,
 		},
 		{ // the same plan with the flag set, in the old line format (no te= token)
 			"reset nra=2",
